@@ -1,2 +1,133 @@
-/- Property theorems for C02 (placeholder until the proofs land). -/
-import Avt.Spec.C02
+/-
+  Avt.Props.C02 — screen geometry invariants hold after every public call.
+
+  All statements are unbounded: every size ≥ 1x1, every scrollback limit, every input character,
+  every `Function` value, every history.  `ResizeOK` (the contract of `Buffer.resize`, proved as
+  `Avt.resizeOK` in Avt/Lemmas/ResizeOK.lean) and `ParserOK` (the parser never panics and keeps its
+  register invariant; parser block) are explicit hypotheses.
+-/
+import Avt.Lemmas.InvVt
+
+namespace Avt.Props.C02
+open Avt
+
+/-- a fresh terminal satisfies the invariant -/
+theorem C02_init {cols rows : Nat} (lim : Option Nat) (hc : 1 ≤ cols) (hr : 1 ≤ rows) :
+    ∃ v, Vt.new cols rows lim = some v ∧ Inv v = true :=
+  Vt.new_ok lim hc hr
+
+/-- EVERY control function (all constructors of `Function`, all arguments) succeeds under the terminal
+    invariant and preserves it: totality (C01) and preservation (C02) at the function level -/
+theorem C02_execute (hR : ResizeOK) {t : Terminal} (f : Function) (h : TInv t = true) :
+    ∃ t', t.execute f = some t' ∧ TInv t' = true := by
+  obtain ⟨t', h1, h2⟩ := Terminal.execute_ok hR f (TOK.of_TInv h)
+  exact ⟨t', h1, h2.TInv⟩
+
+/-- `Vt::feed` -/
+theorem C02_feed (hR : ResizeOK) (hP : ParserOK) {v : Vt} (c : Nat) (h : Inv v = true) :
+    ∃ v', v.feed c = some v' ∧ Inv v' = true :=
+  Vt.feed_ok hR hP c h
+
+/-- `Vt::feed` once per character -/
+theorem C02_feedAll (hR : ResizeOK) (hP : ParserOK) {v : Vt} (s : List Nat) (h : Inv v = true) :
+    ∃ v', v.feedAll s = some v' ∧ Inv v' = true :=
+  Vt.feedAll_ok hR hP s h
+
+/-- `Vt::feed_str`: returns, re-establishes the invariant, and the reported changed-line indices are
+    strictly increasing and below `rows` -/
+theorem C02_feedStr (hR : ResizeOK) (hP : ParserOK) {v : Vt} (s : List Nat) (h : Inv v = true) :
+    ∃ v' ch, v.feedStr s = some (v', ch) ∧ Inv v' = true
+      ∧ changesOK v'.terminal.rows ch.lines = true := by
+  obtain ⟨v', ch, h1, h2, _, h4⟩ := Vt.feedStr_ok hR hP s h
+  exact ⟨v', ch, h1, h2, h4⟩
+
+/-- `Vt::resize` to any size ≥ 1x1: returns, re-establishes the invariant, reports well-formed
+    changed-line indices -/
+theorem C02_resize (hR : ResizeOK) {v : Vt} {c r : Nat} (h : Inv v = true) (hc : 1 ≤ c)
+    (hr : 1 ≤ r) :
+    ∃ v' ch, v.resize c r = some (v', ch) ∧ Inv v' = true
+      ∧ changesOK v'.terminal.rows ch.lines = true := by
+  obtain ⟨v', ch, h1, h2, _, h4, _⟩ := Vt.resize_ok hR h hc hr
+  exact ⟨v', ch, h1, h2, h4⟩
+
+/-- `size()` reports the geometry last requested -/
+theorem C02_size {v v' : Vt} {ch : Changes} {c r : Nat} (h : v.resize c r = some (v', ch)) :
+    v'.size = (c, r) := by
+  unfold Vt.resize at h
+  cases ht : v.terminal.resize c r with
+  | none => simp [ht] at h
+  | some t' =>
+    simp only [ht, Option.map_some, Option.some.injEq] at h
+    have hs := Terminal.resize_size ht
+    have e : v' = (Vt.finish { v with terminal := t' }).1 := by rw [h]
+    rw [e]
+    show ((Vt.finish { v with terminal := t' }).1.terminal.cols,
+      (Vt.finish { v with terminal := t' }).1.terminal.rows) = (c, r)
+    rw [(Vt.finish_size _).1, (Vt.finish_size _).2]
+    exact Prod.ext hs.1 hs.2
+
+/-- one public call keeps the invariant -/
+theorem C02_step (hR : ResizeOK) (hP : ParserOK) {v : Vt} (op : PubOp) (h : Inv v = true)
+    (hv : op.valid) : ∃ v', step v op = some v' ∧ Inv v' = true :=
+  step_ok hR hP op h hv
+
+/-- every finite list of public calls keeps the invariant -/
+theorem C02_run (hR : ResizeOK) (hP : ParserOK) {v : Vt} (ops : List PubOp) (h : Inv v = true)
+    (hv : ∀ op ∈ ops, op.valid) : ∃ v', run v ops = some v' ∧ Inv v' = true :=
+  run_ok hR hP ops h hv
+
+/-- every reachable state satisfies the invariant -/
+theorem C02_reach (hR : ResizeOK) (hP : ParserOK) {v : Vt} (h : Reach v) : Inv v = true :=
+  reach_inv hR hP h
+
+/-- the API-visible clauses: `view()` has exactly `rows` lines and is the tail of `lines()`, every line
+    has `cols` cells, `lines()` is not shorter than `rows`, the last line is not soft-wrapped, the
+    cursor is inside the screen with `col = cols` only while a wrap is pending -/
+theorem C02_geom {v : Vt} (h : Inv v = true) :
+    geomOK v = true ∧ v.view = v.lines.drop (v.lines.length - v.terminal.rows) := by
+  obtain ⟨_, ht⟩ := (Vt.inv_iff v).1 h
+  have hv := ht.bok.hv
+  have hr := ht.brows
+  have hlen : v.lines.length = v.terminal.buffer.sb.length + v.terminal.rows := by
+    simp [Vt.lines, Terminal.lines, Buffer.lines, hv, hr]
+  constructor
+  · simp only [geomOK, Bool.and_eq_true, beq_iff_eq, List.all_eq_true, decide_eq_true_eq,
+      Bool.or_eq_true]
+    refine ⟨⟨⟨⟨⟨⟨?_, ?_⟩, ?_⟩, ?_⟩, ht.crow⟩, ht.ccol_le⟩, ?_⟩
+    · show v.terminal.buffer.view.length = v.terminal.rows
+      omega
+    · intro l hl
+      rcases List.mem_append.1 (show l ∈ v.terminal.buffer.sb ++ v.terminal.buffer.view from hl) with hl | hl
+      · rw [ht.bok.hsw l hl, ht.bcols]
+      · rw [ht.bok.hvw l hl, ht.bcols]
+    · omega
+    · rw [lastUnwrapped_iff]
+      intro l hl
+      refine ht.bok.hlast l ?_
+      have hr1 := ht.r1
+      rw [hlen] at hl
+      rw [show v.lines = v.terminal.buffer.sb ++ v.terminal.buffer.view from rfl,
+        List.getElem?_append_right (by omega)] at hl
+      rw [← hl]; congr 1; omega
+    · rcases ht.ccol with ⟨h1, _⟩ | ⟨_, h2⟩
+      · exact .inr h1
+      · exact .inl h2
+  · show v.terminal.buffer.view = (v.terminal.buffer.sb ++ v.terminal.buffer.view).drop _
+    rw [hlen, Nat.add_sub_cancel, List.drop_left]
+
+/-- the changed-line list of a terminal state is strictly increasing and below `rows` -/
+theorem C02_changes {t : Terminal} (h : TInv t = true) :
+    changesOK t.rows (Dirty.toVec t.dirtyLines) = true := by
+  have := (TOK.of_TInv h).dirty
+  rw [← this]
+  exact Dirty.toVec_ok _
+
+/-- … in particular the `Changes.lines` of `Terminal.changes` -/
+theorem C02_changes_call {t : Terminal} (h : TInv t = true) :
+    changesOK t.changes.1.rows t.changes.2 = true :=
+  C02_changes h
+
+/-- the hypotheses are satisfiable on a concrete non-trivial state -/
+example : ∃ v, Vt.new 80 24 (some 100) = some v ∧ Inv v = true := C02_init _ (by decide) (by decide)
+
+end Avt.Props.C02
